@@ -12,6 +12,7 @@ let () =
     | "vector" -> H_vector.vector_case
     | "values" -> H_values.values_case
     | "params" -> H_params.params_case
+    | "doubles" -> H_doubles.doubles_case
     | _ -> failwith ("unknown model " ^ sub) in
   (try
     while true do
